@@ -45,6 +45,23 @@ def main():
         rc0, out0 = sh(["/venv/bin/python", demo], cwd=wt, env=env, timeout=300)
         ran["demo_without_patch"] = rc0
         rc, out = sh(["git", "-C", wt, "apply", os.path.join(os.path.abspath(a.src), "patch.diff")])
+        if rc:
+            # the repository moved on since the patch was written: try a three-way merge against the blobs it names
+            rc3, out3 = sh(["git", "-C", wt, "apply", "--3way", os.path.join(os.path.abspath(a.src), "patch.diff")])
+            unmerged = sh(["git", "-C", wt, "diff", "--name-only", "--diff-filter=U"])[1].strip()
+            if rc3 == 0 and not unmerged:
+                merged = sh(["git", "-C", wt, "diff", "HEAD"])[1]
+                sh(["git", "-C", wt, "reset", "-q"])
+                orig = os.path.join(a.src, "patch.orig-%s.diff" % meta.get("repo_head", "earlier"))
+                if not os.path.exists(orig):
+                    shutil.copy(os.path.join(a.src, "patch.diff"), orig)
+                open(os.path.join(a.src, "patch.diff"), "w").write(merged)
+                meta["note"] = (meta.get("note", "") + " Re-based by three-way merge onto the current /repo; original kept as "
+                                + os.path.basename(orig) + ".").strip()
+                ran["patch_rebased_3way"] = True
+                rc = 0
+            else:
+                sh(["git", "-C", wt, "reset", "-q", "--hard", "HEAD"])
         ran["patch_applies"] = rc == 0
         if rc:
             print("patch does not apply:", out)
@@ -91,6 +108,9 @@ def main():
             if os.path.abspath(a.src) != os.path.abspath(dst):
                 shutil.copy(os.path.join(a.src, "patch.diff"), dst)
                 shutil.copy(demo, dst)
+                for f in os.listdir(a.src):
+                    if f.startswith("patch.orig"):
+                        shutil.copy(os.path.join(a.src, f), dst)
             meta["confirmed_by"] = {"ran": ran, "how": "scratch git worktree of /repo HEAD; demo.py run without and with patch.diff; "
                                     "repository test suite with the patch; then `VERIF_REPO=<worktree> run.py <ID> --tier quick`"}
             meta["repo_head"] = sh(["git", "-C", "/repo", "log", "--format=%h", "-1"])[1].strip()
